@@ -156,9 +156,23 @@ func c16Headers(c *core.Ctx) {
 			// txt under a type-switch case *types.StringBuffer on the data parameter
 			isStr := false
 			for _, f := range g.Facts() {
-				if f.Br.TypeSwitch != nil && f.Val && g.EdgeDominates(f.Br.B, f.Edge, txt.Loc) {
+				if !f.Val || !g.EdgeDominates(f.Br.B, f.Edge, txt.Loc) {
+					continue
+				}
+				if f.Br.TypeSwitch != nil {
 					if t := info.TypeOf(f.Br.Cond); t != nil && strings.HasSuffix(t.String(), "types.StringBuffer") {
 						isStr = true
+					}
+					continue
+				}
+				// the same test as a comma-ok assertion: `_, isText := data.(*types.StringBuffer); if isText`
+				if d, k := u.SingleDef(f.Br.Cond); k {
+					if te, isT := d.(*core.TupleElem); isT && te.Index == 1 {
+						if ta, isTA := ast.Unparen(te.X).(*ast.TypeAssertExpr); isTA && ta.Type != nil {
+							if t := info.TypeOf(ta.Type); t != nil && strings.HasSuffix(t.String(), "types.StringBuffer") {
+								isStr = true
+							}
+						}
 					}
 				}
 			}
@@ -312,6 +326,18 @@ func c16Gate(c *core.Ctx) {
 		g := sd.Graph()
 		// option := &Options{Compress:false}; set true under packetData.Options.Compress inside the range over packets
 		okInit, okSet := false, false
+		for _, x := range sd.WithHelpers() { // the literal may have moved into an extracted helper with the loop
+			ast.Inspect(x.Body, func(n ast.Node) bool {
+				if kv, isKV := n.(*ast.KeyValueExpr); isKV {
+					if k, _ := kv.Key.(*ast.Ident); k != nil && k.Name == "Compress" {
+						if v, isC := core.ConstBool(info, kv.Value); isC && !v {
+							okInit = true
+						}
+					}
+				}
+				return true
+			})
+		}
 		ast.Inspect(sd.Body, func(n ast.Node) bool {
 			if kv, isKV := n.(*ast.KeyValueExpr); isKV {
 				if k, _ := kv.Key.(*ast.Ident); k != nil && k.Name == "Compress" {
@@ -416,10 +442,21 @@ func c16Codecs(c *core.Ctx) {
 		bufVar = core.ObjOf(info, a.Lhs)
 	}
 	for _, f := range g.Facts() {
-		if !f.Br.IsCase || !f.Val || f.Br.TypeSwitch != nil {
+		if f.Br.TypeSwitch != nil {
 			continue
 		}
-		tok, isS := core.ConstString(info, f.Br.Cond)
+		tok, isS := "", false
+		if f.Br.IsCase {
+			if !f.Val {
+				continue
+			}
+			tok, isS = core.ConstString(info, f.Br.Cond)
+		} else if cmp, ok := u.BranchCmp(f.Br); ok && cmp.Val != nil && cmp.Val.Kind() == constant.String {
+			// the same table written as an if / else-if chain: `encoding == "gzip"` on its true edge
+			if (cmp.Op == token.EQL && f.Val) || (cmp.Op == token.NEQ && !f.Val) {
+				tok, isS = constant.StringVal(cmp.Val), true
+			}
+		}
 		if !isS {
 			continue
 		}
